@@ -1,7 +1,8 @@
 ------------------------------ MODULE GraphGen ------------------------------
 (* C18 -- enumerates the cases of the spec -> code replay; one state = one case (tlc -dump).
 
-   Mode = "walk":   (server, job, fault) = the initial states of Graph!MCSpec over a richer job
+   Mode = "walk" (or its factors "cases" x "faults"):
+                    (server, job, fault) = the initial states of Graph!MCSpec over a richer job
                     universe (all five listing calls, folder targets); fault positions range over
                     0 .. NReq(srv, job) - 1, the request count the specification computes.
                     Names, dates, the filter and the drive id are concretised by the driver
@@ -76,14 +77,25 @@ GenJobs(s) ==
 
 EmptySrv == SrvOf([n |-> 0, parent |-> <<>>, kind |-> <<>>], 1, FALSE)
 
+\* Mode "walk" enumerates the full product; "cases" + "faults" enumerate its two factors (the driver
+\* forms the product: fault f applies at request index k iff k < NReq and (f.at < 0 or k <= f.at))
 GenInit ==
-    /\ IF Mode = "walk"
-       THEN /\ srv \in Servers
-            /\ job \in GenJobs(srv)
-            /\ fault \in { f \in Faults(srv, job) : FaultOK(f) }
-       ELSE /\ srv = EmptySrv
-            /\ job \in FilterCases
-            /\ fault = NoFault
+    /\ CASE Mode = "walk" ->
+              /\ srv \in Servers
+              /\ job \in GenJobs(srv)
+              /\ fault \in { f \in Faults(srv, job) : FaultOK(f) }
+         [] Mode = "cases" ->
+              /\ srv \in Servers
+              /\ job \in GenJobs(srv)
+              /\ fault = [at |-> NReq(srv, job), kind |-> "nreq", code |-> 0]
+         [] Mode = "faults" ->
+              /\ srv = EmptySrv
+              /\ job = JobOf("all", <<>>)
+              /\ fault \in { [f EXCEPT !.at = IF f.kind = "nofield" THEN 1 ELSE -1] : f \in InjectChoices }
+         [] OTHER ->
+              /\ srv = EmptySrv
+              /\ job \in FilterCases
+              /\ fault = NoFault
     /\ budget = 1
     /\ ClientInit
 GenNext == UNCHANGED vars
